@@ -16,15 +16,20 @@ def run(tier, seed):
     mc = [tlc_mc("MC_ValveA2S.tla", "MC_ValveA2S.cfg", workers=8, timeout=1200)]
     b = f"{w}/beh_valve.ndjson"
     g = behaviours("MC_ValveA2S.tla", cfg_for(tier, "Gen_ValveA2S_C11.cfg"), b, "c11_beh")
-    r1 = vh(["valve-behaviours", "--layouts", lay, "--templates", tp, "--in", b, "--reps", 2 if quick else 20, "--seed", seed, "--only", PID], name="c11")
+    r1 = vhr(["valve-behaviours", "--layouts", lay, "--templates", tp, "--in", b, "--only", PID], 2 if quick else 20, seed, tier, name="c11")
     v.add_report(r1, "valve behaviours")
     reps = [r1]
     reps += more(tier, seed, w, v, lay, tp, mc)
+    rt, validated, ts = valve_trace(PID, tier, seed, w, v, lay, tp)
+    reps.append(rt)
+    mc.append(ts)
     nviol, _ = v.finish()
     cov = std_cov(st + mc + [g], reps, {
         "rule": "one case = one complete behaviour of the exchange specification (configuration + server reaction per request) "
                 "enumerated by TLC, concretised with random replies built from the layout tables; distinct by behaviour",
-        "exhaustive": True})
+        "exhaustive": True,
+        "impl_to_spec": "random recorded valve::query exchanges (retries up to 5, up to 4 challenge rounds per attempt, junk replies) "
+                        "validated line by line against spec/Trace_ValveA2S.tla"}, validated=validated)
     write_evidence(PID, tier, seed, LEVEL, cov, time.time() - t0, nviol, ASSUMPTIONS)
     return 1 if nviol else 0
 
@@ -47,6 +52,6 @@ def unreal2_part(tier, seed, w, v, lay, tp, mc):
     mc.append(tlc_mc("MC_Unreal2.tla", "MC_Unreal2.cfg", workers=4, name=PID.lower() + "_mcu"))
     b = f"{w}/beh_unreal2.ndjson"
     mc.append(behaviours("MC_Unreal2.tla", cfg_for(tier, "Gen_Unreal2.cfg"), b, PID.lower() + "_genu"))
-    r = vh(["unreal2-behaviours", "--layouts", lay, "--in", b, "--reps", 4 if quick else 40, "--seed", seed, "--only", PID], name=PID.lower() + "u")
+    r = vhr(["unreal2-behaviours", "--layouts", lay, "--in", b, "--only", PID], 4 if quick else 40, seed, tier, name=PID.lower() + "u")
     v.add_report(r, "unreal2 behaviours")
     return [r]
